@@ -72,6 +72,130 @@ partial def valJson : Val → Json
   | .dict kvs => Json.mkObj [("d", Json.arr (kvs.map (fun (k, v) => Json.arr #[Json.str k, valJson v])).toArray)]
   | .tup v attrs => Json.mkObj [("m", Json.arr #[valJson v, Json.arr (attrs.map (fun (k, a) => Json.arr #[Json.str k, Json.str a])).toArray])]
 
+partial def pvalJson : PVal Leaf → Json
+  | .leaf l => leafJson l
+  | .cstr s => Json.mkObj [("s", Json.str s)]
+  | .cint i => Json.mkObj [("i", Json.str (toString i))]
+  | .list xs => Json.mkObj [("l", Json.arr (xs.map pvalJson).toArray)]
+  | .dict kvs => Json.mkObj [("d", Json.arr (kvs.map (fun (k, v) => Json.arr #[Json.str k, pvalJson v])).toArray)]
+  | .tup xs => Json.mkObj [("u", Json.arr (xs.map pvalJson).toArray)]
+
+def kvsJson (kvs : KVs Leaf) : Json := Json.arr (kvs.map (fun (k, v) => Json.arr #[Json.str k, pvalJson v])).toArray
+
+partial def grpJson : Grp Leaf → Json
+  | .mk vars groups attrs => Json.mkObj [
+      ("vars", Json.arr (vars.map (fun (k, v) => Json.arr #[Json.str k, Json.mkObj [("dims", toJson v.dims), ("data", pvalJson v.data), ("attrs", kvsJson v.attrs)]])).toArray),
+      ("groups", Json.arr (groups.map (fun (k, g) => Json.arr #[Json.str k, grpJson g])).toArray),
+      ("attrs", kvsJson attrs)]
+
+def recordByName : String → Option Con
+  | "volume" => some Gen.volumeDirectoryRecord
+  | "header" => some Gen.imageFileDescriptor
+  | "dataset_summary" => some Gen.datasetSummaryRecord
+  | "radiometric" => some Gen.radiometricDataRecord
+  | "dqs" => some Gen.dataQualitySummaryRecord
+  | "record5" => some Gen.facilityRelatedData5Record
+  | "lines10" => some Gen.signalDataRecord
+  | "lines11" => some Gen.processedDataRecord
+  | _ => none
+
+-- Python values on the wire: {"n":null} {"b":true} {"i":"12"} {"f":"1.5"} {"s":".."} {"l":[..]} {"t":[..]} {"d":[[k,v],..]}
+partial def pyOfJson (j : Json) : PyVal :=
+  match j.getObjVal? "b" with
+  | .ok (.bool b) => .bool b
+  | _ =>
+  match j.getObjVal? "i" with
+  | .ok (.str s) => .int (s.toInt?.getD 0)
+  | _ =>
+  match j.getObjVal? "f" with
+  | .ok (.str s) => .float s
+  | _ =>
+  match j.getObjVal? "s" with
+  | .ok (.str s) => .str s
+  | _ =>
+  match j.getObjVal? "l" with
+  | .ok (.arr xs) => .list (xs.toList.map pyOfJson)
+  | _ =>
+  match j.getObjVal? "t" with
+  | .ok (.arr xs) => .tuple (xs.toList.map pyOfJson)
+  | _ =>
+  match j.getObjVal? "d" with
+  | .ok (.arr xs) => .dict (xs.toList.map (fun kv => match kv with
+      | .arr #[.str k, v] => (k, pyOfJson v)
+      | _ => ("", .none)))
+  | _ => .none
+
+partial def pyToJson : PyVal → Json
+  | .none => Json.mkObj [("n", Json.null)]
+  | .bool b => Json.mkObj [("b", Json.bool b)]
+  | .int i => Json.mkObj [("i", Json.str (toString i))]
+  | .float t => Json.mkObj [("f", Json.str t)]
+  | .str s => Json.mkObj [("s", Json.str s)]
+  | .list xs => Json.mkObj [("l", Json.arr (xs.map pyToJson).toArray)]
+  | .tuple xs => Json.mkObj [("t", Json.arr (xs.map pyToJson).toArray)]
+  | .dict kvs => Json.mkObj [("d", Json.arr (kvs.map (fun (k, v) => Json.arr #[Json.str k, pyToJson v])).toArray)]
+
+def pyKvsOfJson (j : Json) : List (String × PyVal) := match j with
+  | .arr xs => xs.toList.map (fun kv => match kv with
+      | .arr #[.str k, v] => (k, pyOfJson v)
+      | _ => ("", .none))
+  | _ => []
+
+def pyKvsToJson (kvs : List (String × PyVal)) : Json := Json.arr (kvs.map (fun (k, v) => Json.arr #[Json.str k, pyToJson v])).toArray
+
+def arrOfJson (j : Json) : ArrData :=
+  match j.getObjVal? "nd" with
+  | .ok a => .nd ⟨getStr a "dtype", ((a.getObjValAs? (List Nat) "shape").toOption).getD [], (getArr a "flat").toList.map pyOfJson⟩
+  | .error _ =>
+    let b := (j.getObjVal? "backend").toOption.getD .null
+    .backend ⟨getStr b "root", getStr b "url", pyOfJson ((b.getObjVal? "shape").toOption.getD .null), getStr b "dtype",
+              pyOfJson ((b.getObjVal? "byte_ranges").toOption.getD .null), getStr b "type_code", getNat b "rpc"⟩
+
+def arrToJson : ArrData → Json
+  | .nd a => Json.mkObj [("nd", Json.mkObj [("dtype", Json.str a.dtype), ("shape", toJson a.shape), ("flat", Json.arr (a.flat.map pyToJson).toArray)])]
+  | .backend b => Json.mkObj [("backend", Json.mkObj [("root", Json.str b.root), ("url", Json.str b.url), ("shape", pyToJson b.shape),
+      ("dtype", Json.str b.dtype), ("byte_ranges", pyToJson b.byteRanges), ("type_code", Json.str b.typeCode), ("rpc", toJson b.rpc)])]
+
+mutual
+partial def groupOfJson (j : Json) : CGroup :=
+  .mk (getStr j "path") (pyOfJson ((j.getObjVal? "url").toOption.getD .null))
+    ((getArr j "data").toList.map (fun kv => match kv with
+      | .arr #[.str k, n] => (k, nodeOfJson n)
+      | _ => ("", .var ⟨.none, .nd ⟨"", [], []⟩, []⟩)))
+    (pyKvsOfJson ((j.getObjVal? "attrs").toOption.getD .null))
+partial def nodeOfJson (j : Json) : CNode :=
+  match j.getObjVal? "var" with
+  | .ok v => .var ⟨pyOfJson ((v.getObjVal? "dims").toOption.getD .null), arrOfJson ((v.getObjVal? "data").toOption.getD .null),
+                   pyKvsOfJson ((v.getObjVal? "attrs").toOption.getD .null)⟩
+  | .error _ => .group (groupOfJson ((j.getObjVal? "group").toOption.getD .null))
+end
+
+mutual
+partial def groupToJson : CGroup → Json
+  | .mk path url data attrs => Json.mkObj [("path", Json.str path), ("url", pyToJson url),
+      ("data", Json.arr (data.map (fun (k, n) => Json.arr #[Json.str k, nodeToJson n])).toArray), ("attrs", pyKvsToJson attrs)]
+partial def nodeToJson : CNode → Json
+  | .var v => Json.mkObj [("var", Json.mkObj [("dims", pyToJson v.dims), ("data", arrToJson v.data), ("attrs", pyKvsToJson v.attrs)])]
+  | .group g => Json.mkObj [("group", groupToJson g)]
+end
+
+def optText (j : Json) (k : String) : Option (List Char) := match j.getObjVal? k with
+  | .ok (.str s) => some s.toList
+  | _ => none
+
+def textJson : Option (List Char) → Json
+  | some t => Json.str (String.ofList t)
+  | none => Json.null
+
+def opOfJson (j : Json) : Op :=
+  match getStr j "op" with
+  | "open" => .open_ (((j.getObjValAs? Bool "use").toOption).getD true) (((j.getObjValAs? Bool "create").toOption).getD false) (getNat j "rpc")
+  | "cli" => .cli (getNat j "rpc")
+  | "delLocal" => .delLocal
+  | "delAdjacent" => .delAdjacent
+  | "crashLocal" => .crashLocal (getNat j "rpc") (getNat j "k")
+  | _ => .crashAdjacent (getNat j "rpc") (getNat j "k")
+
 def layoutByName : String → Option Con
   | "recordPreamble" => some Gen.recordPreamble
   | "imageFileDescriptor" => some Gen.imageFileDescriptor
@@ -116,6 +240,66 @@ def step (j : Json) : Json :=
       match parse c [] (unhex (getStr j "data")) 0 with
       | .ok (v, pos) => Json.mkObj [("ok", valJson v), ("pos", toJson pos)]
       | .error e => Json.mkObj [("err", Json.str e.name)]
+  | "transform" =>
+    let what := getStr j "what"
+    match recordByName what with
+    | none => Json.mkObj [("bad-record", Json.str what)]
+    | some c =>
+      let c' := if what = "lines10" ∨ what = "lines11" then Con.array (.const (getNat j "n")) c else c
+      match parse c' [] (unhex (getStr j "data")) 0 with
+      | .error e => Json.mkObj [("parse-err", Json.str e.name)]
+      | .ok (v, _) =>
+        let pv := v.toPVal
+        let optG (o : Option (Grp Leaf)) : Json := match o with
+          | some g => Json.mkObj [("ok", grpJson g)]
+          | none => Json.mkObj [("uninterpreted", Json.null)]
+        let optK (o : Option (KVs Leaf)) : Json := match o with
+          | some kvs => Json.mkObj [("ok", kvsJson kvs)]
+          | none => Json.mkObj [("uninterpreted", Json.null)]
+        match what with
+        | "volume" => optK (transformVolumeRecord realLeafFns pv)
+        | "header" => optK (extractAttrs realLeafFns pv)
+        | "dataset_summary" => optG (transformDatasetSummary realLeafFns pv)
+        | "radiometric" => optG (transformRadiometricData pv)
+        | "dqs" => optG (transformDataQualitySummary pv)
+        | "record5" => optG (transformRecord5 realLeafFns pv)
+        | _ => match pv with
+          | .list recs => Json.mkObj [("ok", grpJson (transformLineMetadata recs))]
+          | _ => Json.mkObj [("bad", Json.null)]
+  | "json_dump" => Json.mkObj [("text", Json.str (String.ofList (dump (pyOfJson ((j.getObjVal? "val").toOption.getD .null)))))]
+  | "json_loads" =>
+    match jsonLoads (getStr j "text").toList with
+    | .ok v => Json.mkObj [("ok", pyToJson v)]
+    | .error e => Json.mkObj [("err", Json.str e.name)]
+  | "cache_encode" =>
+    let g := groupOfJson ((j.getObjVal? "group").toOption.getD .null)
+    Json.mkObj [("doc", pyToJson (encodeDoc g)), ("text", Json.str (String.ofList (docText g))), ("in_domain", Json.bool (g.InDomain domainFuel))]
+  | "cache_decode" =>
+    match jsonLoads (getStr j "text").toList with
+    | .error _ => Json.mkObj [("err", Json.str "CachingError")]
+    | .ok d => match decodeDoc (getNat j "rpc") d with
+      | .ok g => Json.mkObj [("ok", groupToJson g)]
+      | .error e => Json.mkObj [("err", Json.str e.name)]
+  | "cache_flow" =>
+    let base := groupOfJson ((j.getObjVal? "base").toOption.getD .null)
+    let E : Env := { U := fun r => base.withRpc r, loads := jsonLoads }
+    let st := (j.getObjVal? "state").toOption.getD .null
+    let s0 : CState := { loc := optText st "loc", adj := optText st "adj" }
+    let ops := (getArr j "ops").toList.map opOfJson
+    let rec go (s : CState) : List Op → List Json
+      | [] => [Json.mkObj [("final", Json.mkObj [("loc", textJson s.loc), ("adj", textJson s.adj)])]]
+      | op :: rest =>
+        match op with
+        | .open_ use create rpc =>
+          let r := openImage E s use create rpc
+          let out := match r.result with
+            | .ok g => Json.mkObj [("rpc", toJson rpc), ("ok", groupToJson g),
+                ("source", Json.str (match r.source with | some .parsed => "parsed" | some .cacheLocal => "local" | some .cacheAdjacent => "adjacent" | none => "none")),
+                ("loc", textJson r.state.loc), ("adj", textJson r.state.adj)]
+            | .error e => Json.mkObj [("rpc", toJson rpc), ("err", Json.str e.name)]
+          out :: go r.state rest
+        | other => go (Alos2.step E s other).2 rest
+    Json.mkObj [("outs", Json.arr (go s0 ops).toArray)]
   | "slice" =>
     let a := getArr j "s"
     match sliceIndices (getNat j "n") (optInt (a.getD 0 .null)) (optInt (a.getD 1 .null)) (optInt (a.getD 2 .null)) with
